@@ -108,7 +108,7 @@ CLAIMED = {
          "5 C20"),
  "C12": ("TLA+ Retrans (loop as coded with an adversarial peer, model-checked) + R-spec Pfcp/TraceE2E (RetransEv, PostponeEv, AssocEv with the agent's isConnected): TLC judges what a scripted lossy peer observed of the real agent",
          "A scripted peer answers the k-th transmission (k = 1..N+1) of agent-originated Heartbeat Requests and of UPF-initiated Association Setup Requests, none, late, twice, with wrong sequence numbers, without Cause or with a rejection, "
-         "for N in 1..3 (1..5 thorough) and response time-outs 40-60 ms; it sends its own heartbeat at mid-interval; the BESS server is stopped and restarted around association attempts while the agent's isConnected is read from the "
+         "for N in 1..3 (1..5 thorough) and response time-outs 40-60 ms; it sends its own heartbeat at mid-interval; the BESS server - and in one shard per tier the P4Runtime switch of the UP4 plug-in - is stopped and restarted around association attempts while the agent's isConnected is read from the "
          "guarded snapshot immediately before each request; feature configurations are random. TLC checks AtMostOnePlusNTransmissions, SpacedByResponseTimeout, StopsOnResponseDeadOnlyWhenAllUnanswered (and the sessions' removal through "
          "C05_NoDatapathResidue at the lost event), PeerHeartbeatPostponesOwn, RecoveryTimeStampConstant, AssociationAcceptedIffConnected, FeaturesMatchConfiguration and HeartbeatAnsweredAnyTime.",
          "Timing with one-sided 20 % tolerances on the harness' clock (not exactness of the time-out); sampled loss patterns per run rather than all interleavings of late answers. " + TRUST,
